@@ -49,6 +49,10 @@ func Main(args []string) int {
 			return checkC12conc()
 		case "C17conc":
 			return checkC17conc()
+		case "C16conc":
+			return checkC16conc()
+		case "C04conc":
+			return checkC04()
 		}
 	case "replay":
 		if len(args) < 2 {
@@ -61,7 +65,7 @@ func Main(args []string) int {
 		}
 		return racePass(args[1])
 	}
-	fmt.Fprintln(os.Stderr, "usage: ed check C15|C10conc|C05mon|C18atom|C03conc|C13conc|C14conc|C14ctl|C01conc|C06conc|C12conc|C17conc | ed replay <file> | ed racepass <id> | ed worker")
+	fmt.Fprintln(os.Stderr, "usage: ed check C15|C10conc|C05mon|C18atom|C03conc|C13conc|C14conc|C14ctl|C01conc|C06conc|C12conc|C17conc|C16conc|C04conc | ed replay <file> | ed racepass <id> | ed worker")
 	return 2
 }
 
@@ -822,7 +826,7 @@ func checkSimple(prop, harness, evName string) int {
 		if tier == "thorough" {
 			levels = append(levels, Bounds{4, 0, 4})
 		}
-	case "C01conc", "C06conc", "C12conc", "C17conc":
+	case "C01conc", "C06conc", "C12conc", "C17conc", "C16conc":
 		for _, cf := range c01Configs(harness, tier) {
 			cf := cf
 			jobs = append(jobs, Job{Harness: harness, C01: &cf})
@@ -848,6 +852,15 @@ func checkSimple(prop, harness, evName string) int {
 		levels = []Bounds{{0, 0, 0}, {1, 0, 1}, {2, 0, 2}}
 		if tier == "thorough" {
 			levels = append(levels, Bounds{3, 0, 3}, Bounds{4, 0, 4})
+		}
+	case "C04conc":
+		for _, cf := range c04Configs(tier) {
+			cf := cf
+			jobs = append(jobs, Job{Harness: harness, C18: &cf})
+		}
+		levels = []Bounds{{0, 0, 0}, {1, 0, 1}, {2, 0, 2}, {3, 0, 3}}
+		if tier == "thorough" {
+			levels = append(levels, Bounds{4, 0, 4}, Bounds{5, 0, 5})
 		}
 	case "C13conc":
 		for _, cf := range c13Configs(tier) {
@@ -985,14 +998,14 @@ func simpleAssumptions(h string) []string {
 			"oracle inside the stub data path: when the FIRST replica call of a write/sync/unmap operation arrives at a replica, the number of RW entries of the controller's replica list at that moment (not the cached RWReplicaCount) must be >= RF/2+1; the other calls of the same MultiWriterAt fan-out belong to the same admission; an operation refused as read-only must not have reached any replica",
 			"calls are attributed to operations by payload byte (write), offset (unmap), and by being the only sync of the configuration; failing calls fail before being applied on the chosen replica",
 		}
-	case "C18atom", "C13conc":
+	case "C18atom", "C13conc", "C04conc":
 		return []string{
 			"real controller.Controller (whole package under the scheduler: Controller.RWMutex, MultiWriterAt/replicator fan-out goroutines and wait groups, Controller.monitoring goroutines) with real *remote.Remote backends whose REST and data calls go in-process to engine E-B's model replica nodes (bound to the real replica by E-B's conformance check)",
 			"each execution builds its own cluster inside the scheduler (register x2, start, add+sync+verify) without exploring that prefix; then the calls run concurrently; map iterations of package controller are in key order",
 			"reference = every sequential order of the same calls, each run to quiescence, AddReplica counting as two events (check+factory.Create | attach) as in E-B's event alphabet; monitor failure = an error put on the backend's monitor channel; the StopMonitoring branch of monitorPing is played by a stub thread",
 			"outcome = per-call results (ok/err, n, data digest) + canonical final state (controller membership, modes, ReadOnly, RW count, checkpoint, reader/writer counts; every node's state, mode, revision counter, chain with generated names renamed, checkpoint, data digest)",
 		}
-	case "C01conc", "C06conc", "C12conc", "C17conc":
+	case "C01conc", "C06conc", "C12conc", "C17conc", "C16conc":
 		return []string{
 			"ONE real on-disk replica.Server per execution (3 blocks; chain a1 (automatic, base) < a2 (automatic) < u3 (user) < a4 (automatic, latest) < head, every block rewritten along the way), package replica under the scheduler: Server.RWMutex, Replica.RWMutex (writer preference modelled), rmLock, revisionLock are scheduling points; file-system calls, FIEMAP and the coalesce (sparse.FoldFile, as the sfold child does it) run atomically between two points; reclamation off, the hole puncher's drain branch is a managed stub thread",
 			"threads call what the RPC server (WriteAt aligned/unaligned, ReadAt aligned/unaligned) and the REST server / cleaner call (Snapshot, prepare+coalesce+RemoveDiffDisk of a2 as three calls, Revert to u3, Reload, reload-without-preload + UpdateLUNMap, Resize, SetReplicaMode, SetRevisionCounter, Close)",
